@@ -6,6 +6,9 @@
        else (no private variable, no constraint) (C17_arguments_become_public_inputs_in_order);
      - results: val() allocates one public output and ties it to the result wire by a constraint that every satisfying
        assignment must respect (C17_output_is_tied_to_its_wire).
+     - "exactly": outside guarded regions the result pass allocates exactly one public output per secret-integer leaf of the
+       returned structure, exactly one constraint each (the tie), no private variable, and nothing for the other leaves
+       (C17_results_become_public_outputs).
    The float pass (known finding F18: ints first, then floats), nested dict structures, keyword arguments, the returned
    plain values and sequences of calls sharing argument objects / result wires are decided on the real code: trace
    correspondence of the @snark model, an oracle on the ordered public vector and the returned values, and direct
@@ -13,7 +16,7 @@
 From Coq Require Import ZArith List Bool Lia Znumtheory.
 From PySnark.Base Require Import FieldZ.
 From PySnark.Model Require Import Lc Sym Good Gadgets Api Prog.
-From PySnark.Proofs Require Import Meta Adv AdvGadgets.
+From PySnark.Proofs Require Import Meta Adv AdvGadgets SnarkCore.
 Import ListNotations.
 Open Scope Z_scope.
 
@@ -50,6 +53,12 @@ Theorem C17_output_is_tied_to_its_wire : forall (s : @Gadgets.gst p) x u s' cs, 
 Proof. intros s x u s1 cs G R H. eapply lcval_forced; eauto. Qed.
 End C17.
 
+Theorem C17_results_become_public_outputs : forall (p : Z) ls (r : regs) (s : @Gadgets.gst p) r' s' cs, NoDup ls -> guard s = None ->
+  run (conv_pass (p:=p) res_lc ls r) s = (inl r', s', cs) ->
+  let k := length (filter is_secret_int (map (rget r) ls)) in
+  npub s' = npub s + Z.of_nat k /\ npriv s' = npriv s /\ length (cons_of cs) = k /\ guard s' = None.
+Proof. intros p. exact (res_pass_counts (p:=p)). Qed.
+
 Example C17_example :
   let t := model_run (p:=65537) {| bitlength := 4%nat; resolution := 0 |}
              [SConst 0 (LInt 3); SConst 1 (LInt 4); SConst 2 (LInt 5);
@@ -59,3 +68,4 @@ Proof. vm_compute. repeat split; reflexivity. Qed.
 
 Print Assumptions C17_arguments_become_public_inputs_in_order.
 Print Assumptions C17_output_is_tied_to_its_wire.
+Print Assumptions C17_results_become_public_outputs.
